@@ -83,6 +83,29 @@ type FieldExpression struct {
 
 // Evaluate filters the input collections by those that contain
 // the FieldName string, and returns the result.
+// primitiveHasNoValueURL is the extension google/fhir's JSON parser puts on a primitive that has an
+// id or extensions but no value. It is bookkeeping of the proto representation, not an extension of
+// the resource: it is never yielded as an element, and an element that carries it has no value.
+const primitiveHasNoValueURL = "https://g.co/fhir/StructureDefinition/primitiveHasNoValue"
+
+func isNoValueMarker(m proto.Message) bool {
+	ext, ok := m.(*dtpb.Extension)
+	return ok && ext.GetUrl().GetValue() == primitiveHasNoValueURL
+}
+
+func hasNoValueMarker(m proto.Message) bool {
+	extendable, ok := m.(interface{ GetExtension() []*dtpb.Extension })
+	if !ok {
+		return false
+	}
+	for _, ext := range extendable.GetExtension() {
+		if isNoValueMarker(ext) {
+			return true
+		}
+	}
+	return false
+}
+
 func (e *FieldExpression) Evaluate(ctx *Context, input system.Collection) (system.Collection, error) {
 	output := system.Collection{}
 
@@ -144,6 +167,10 @@ func (e *FieldExpression) Evaluate(ctx *Context, input system.Collection) (syste
 			// is normalized here, since the FHIR spec models these types as strings
 			// with a "value" field.
 			if fieldName == "value" {
+				if hasNoValueMarker(message) {
+					// an element with an id or extensions but no value
+					continue
+				}
 				switch v := message.(type) {
 				case *dtpb.Date:
 					output = append(output, system.String(fhirconv.DateToString(v)))
@@ -180,6 +207,10 @@ func (e *FieldExpression) Evaluate(ctx *Context, input system.Collection) (syste
 		// So, it can be cast to a system type. Otherwise, a field is being accessed that
 		// shouldn't be accessed, so the error is returned.
 		if field.Kind() != protoreflect.MessageKind {
+			if hasNoValueMarker(message) {
+				// an element with an id or extensions but no value
+				continue
+			}
 			primitive, err := system.From(message)
 			if err != nil {
 				return nil, err
@@ -224,6 +255,9 @@ func (e *FieldExpression) Evaluate(ctx *Context, input system.Collection) (syste
 		content := reflect.Get(field).List()
 		for i := 0; i < content.Len(); i++ { // flatten out list
 			result := content.Get(i).Message().Interface()
+			if isNoValueMarker(result) {
+				continue
+			}
 			unwrapped, err := unwrap(result)
 			if err != nil {
 				return nil, err
